@@ -121,6 +121,9 @@ def rule_r3(ctx: Ctx) -> None:
 
 
 def run(ctx: Ctx) -> None:
+    from .c02 import list_refinement_rule
+    ctx.rule("C04.R7", "no invalid program reachable through a refined list: its elements are created as values of the declared (possibly refined) element type (shared with C02.R7)")
+    ctx.floor("C04.R7", list_refinement_rule(ctx, "C04.R7"), 8, "list refinement x element type")
     from .creationmodel import creation_rule
     ctx.rule("C04.R6", "over ALL decision sequences on the creation model grammars: grow = bounded language, position-independent grow within it, full = full programs")
     ctx.floor("C04.R6", creation_rule(ctx, "C04.R6", "exact"), 14, "model grammar x decider x limit")
